@@ -48,7 +48,7 @@ inline std::vector<double> vec_b(int n) { std::vector<double> v(n); for (int i =
 // ------------------------------------------------------------- quantisers
 // millidecades: round(1000 log10 v), clamped; 0 or negative -> -30000
 inline long long md(long double v) {
-    if (!(v == v)) return 30000;                    // NaN: as bad as it gets
+    if (!(v == v) || std::isinf(v)) return 30000;   // NaN / Inf: as bad as it gets
     if (v <= 0) return -30000;
     long double q = 1000.0L * std::log10(v);
     if (q < -30000) q = -30000; if (q > 30000) q = 30000;
@@ -122,9 +122,13 @@ inline dmat ident(int n) { dmat I(n, n); for (int i = 0; i < n; ++i) I(i, i) = 1
 inline dvec sub(const dvec &a, const dvec &b) { dvec r(a.size()); for (size_t i = 0; i < a.size(); ++i) r[i] = a[i] - b[i]; return r; }
 inline dvec add(const dvec &a, const dvec &b) { dvec r(a.size()); for (size_t i = 0; i < a.size(); ++i) r[i] = a[i] + b[i]; return r; }
 inline dvec scal(cld s, const dvec &a) { dvec r(a.size()); for (size_t i = 0; i < a.size(); ++i) r[i] = s * a[i]; return r; }
-inline ld nrm_inf(const dvec &a) { ld m = 0; for (auto &z : a) m = std::max(m, std::abs(z)); return m; }
+// norms propagate NaN / Inf (std::max would silently drop a NaN)
+inline ld amax(ld m, ld v) { return (v == v) ? (m == m ? std::max(m, v) : m) : v; }
+inline ld nrm_inf(const dvec &a) { ld m = 0; for (auto &z : a) m = amax(m, std::abs(z)); return m; }
 inline ld nrm2(const dvec &a) { ld m = 0; for (auto &z : a) m += std::norm(z); return std::sqrt(m); }
-inline ld max_abs(const dmat &X) { ld m = 0; for (auto &z : X.a) m = std::max(m, std::abs(z)); return m; }
+inline ld max_abs(const dmat &X) { ld m = 0; for (auto &z : X.a) m = amax(m, std::abs(z)); return m; }
+inline bool all_finite(const dvec &a) { for (auto &z : a) if (!std::isfinite((double)z.real()) || !std::isfinite((double)z.imag())) return false; return true; }
+inline bool all_finite(const dmat &X) { return all_finite(X.a); }
 inline ld fro(const dmat &X) { ld m = 0; for (auto &z : X.a) m += std::norm(z); return std::sqrt(m); }
 inline dmat subm(const dmat &X, const dmat &Y) { dmat Z(X.n, X.m); for (size_t k = 0; k < X.a.size(); ++k) Z.a[k] = X.a[k] - Y.a[k]; return Z; }
 // mixed absolute/relative difference of two vectors: |got - want|_inf / max(1, |want|_inf)
